@@ -469,6 +469,9 @@ package parse
 //@   ensures result0 == node_pfx_ns(self, prefix) && result1 == node_pfx_err(self, prefix)
 //@ func (Node).Path
 //@   ensures result == node_path(self)
+//@ func (Node).NotSupported
+//@   nopanic
+//@   ensures result == node_notsupported(self)
 //@ func (Node).GetCardinalityEnd
 //@   params t
 //@   nopanic
